@@ -271,10 +271,14 @@ def params_text():
     if len(tries) != 2:
         _fail("aclose: expected two nested try statements")
     outer, inner = (tries[0], tries[1]) if any(isinstance(n, ast.Try) for n in ast.walk(tries[0]) if n is not tries[0]) else (tries[1], tries[0])
-    if not (len(inner.handlers) == 1 and len(inner.handlers[0].body) == 1 and isinstance(inner.handlers[0].body[0], ast.Pass)
+    # the last handler swallows (pass); an optional first handler for SSLError re-sends what unwrap() left in the outgoing
+    # BIO (meta/fixes/C09_close_notify_after_failed_unwrap.diff; its exact shape is checked by c08.params_text -> f_close_flush)
+    if not (len(inner.handlers) in (1, 2) and len(inner.handlers[-1].body) == 1 and isinstance(inner.handlers[-1].body[0], ast.Pass)
             and "unwrap" in ast.unparse(inner.body)):
         _fail("aclose: inner try not recognised")
-    out.append(f"Definition aclose_unwrap_swallows : list exc_class := {_coq_list(_cls(inner.handlers[0].type, 'aclose'))}.")
+    if len(inner.handlers) == 2 and _cls(inner.handlers[0].type, 'aclose') != ["CSslError"]:
+        _fail("aclose: first handler of the inner try is not SSLError")
+    out.append(f"Definition aclose_unwrap_swallows : list exc_class := {_coq_list(_cls(inner.handlers[-1].type, 'aclose'))}.")
     if not (len(outer.handlers) == 1 and "aclose_forcefully" in ast.unparse(outer.handlers[0]) and
             isinstance(outer.handlers[0].body[-1], ast.Raise)):
         _fail("aclose: outer try not recognised")
@@ -1147,6 +1151,149 @@ def _default_client_cases(thorough):
                                  "std" if std else "nonstd", "truncated" if cut < total else "clean-close"])
 
 
+# ---- recv() pending / draining in one task while another task closes the transport
+
+K_CONCURRENT_CLOSE = 5
+
+
+def run_concurrent_close(cfg):
+    """Real AsyncTLSStreamTransport: a reader task loops on recv() while a second task calls aclose() (after the reader's
+    `after`-th recv, or at once while the reader is parked).  The peer sends `peer` (data sizes, 0 = close_notify), the
+    stream is cut after `cut` bytes; the peer answers our close_notify if reply_close.  Returns the multi-task pump
+    trace (recv and unwrap calls), the per-call results and what the peer saw."""
+    import asyncio
+
+    import c08
+    from easynetwork.lowlevel.api_async.transports.tls import AsyncTLSStreamTransport
+
+    rec = K.Recorder()
+    std, ver, client = bool(cfg["std"]), cfg["ver"], bool(cfg["client"])
+    script = _peer_script(cfg["peer"])
+    if client:
+        peer = K.Peer(K.server_ctx(ver), True, script)
+        ctx = K.RecContext(K.client_ctx(ver), rec)
+    else:
+        peer = K.Peer(K.client_ctx(ver), False, script)
+        ctx = K.RecContext(K.server_ctx(ver), rec)
+    peer.reply_close = bool(cfg.get("reply_close", 1))
+    peer.lazy = True
+    info = dict(results={}, recvs=[], close=None, deadlock=False, closer_op=None)
+
+    async def main():
+        rec.name_task(0)
+        tr = K.MemTransport(rec, peer, K.RecBackend(K.new_backend(), rec), cut=cfg.get("cut"))
+        tr.peer_silent_eof = not cfg.get("silent", 1)
+        info["tr"] = tr
+        if not client:
+            tr.stream += peer.pump()
+        op = rec.begin_op(K.M_HANDSHAKE, 0, [])
+        with K.patched_ssl_module(rec):
+            t = await AsyncTLSStreamTransport.wrap(tr, ctx, server_side=not client,
+                                                   server_hostname="localhost" if client else None,
+                                                   standard_compatible=std, shutdown_timeout=30.0)
+        info["results"][op] = [0, 0]
+        go_close = asyncio.Event()
+
+        async def reader():
+            for i in range(8):
+                if i == cfg["after"]:
+                    go_close.set()
+                    await asyncio.sleep(0)
+                op = rec.begin_op(K.M_READ, RECV_SIZE, [])
+                try:
+                    d = await t.recv(RECV_SIZE)
+                except BaseException as exc:
+                    info["results"][op] = [1, exc_code(exc)]
+                    info["recvs"].append([1, exc_code(exc)])
+                    return
+                info["results"][op] = [0, len(d)]
+                info["recvs"].append([0, len(d)])
+                if not d:
+                    return
+
+        async def closer():
+            await go_close.wait()
+            op = rec.begin_op(K.M_UNWRAP, 0, [])
+            info["closer_op"] = op
+            try:
+                await t.aclose()
+                info["close"] = [0, 0]
+            except BaseException as exc:
+                info["close"] = [1, exc_code(exc)]
+
+        r = asyncio.ensure_future(reader())
+        c = asyncio.ensure_future(closer())
+        if cfg["after"] >= 8:
+            go_close.set()
+        await asyncio.wait([r, c], timeout=200)
+        info["events_end"] = len(rec.events)
+        for x in (r, c):
+            x.cancel()
+        await asyncio.gather(r, c, return_exceptions=True)
+
+    try:
+        detloop.run(main())
+    except detloop.DeadlockError:
+        info["deadlock"] = True
+    events = list(rec.events[: info.get("events_end", len(rec.events))])
+    # the closer's pumped call is unwrap(); what aclose() does after it (write_eof x2, transport.aclose) is the op layer
+    cop = info["closer_op"]
+    if cop is not None:
+        err_at = next((i for i, ev in enumerate(events) if ev[0] == "ssl" and ev[1] == cop and ev[4] not in (K.O_OK, K.O_WANT_READ, K.O_WANT_WRITE)), None)
+        if err_at is not None:
+            keep_until = err_at
+            # the pump's own write_eof pair right after the error belongs to it
+            j = err_at + 1
+            while j < len(events) and events[j][1] == cop and events[j][0] in ("reof", "weof") and j <= err_at + 2:
+                keep_until = j
+                j += 1
+            events = [ev for i, ev in enumerate(events) if not (i > keep_until and ev[1] == cop)]
+        last = max((i for i, ev in enumerate(events) if ev[1] == cop and ev[0] in ("ssl", "acq", "sent", "rcvd", "cancel", "send", "recv")),
+                   default=-1)
+        events = [ev for i, ev in enumerate(events) if not (i > last and ev[0] in ("reof", "weof", "close") and ev[1] == cop)]
+        cev = [ev for ev in events if ev[1] == cop]
+        if any(ev[0] == "cancel" for ev in cev):
+            info["results"][cop] = [1, 12]
+        else:
+            ssl_ev = [ev for ev in cev if ev[0] == "ssl"]
+            failed_io = [ev for ev in cev if (ev[0] == "sent" and not ev[2]) or (ev[0] == "rcvd" and ev[2] < 0)]
+            if failed_io:
+                info["results"][cop] = [1, 9]
+            elif ssl_ev and ssl_ev[-1][4] == K.O_OK:
+                info["results"][cop] = [0, ssl_ev[-1][5]]
+            elif ssl_ev:
+                info["results"][cop] = [1, ssl_ev[-1][4]]
+    events = [ev for ev in events if ev[0] != "close"]
+    labels, obs, results = c08._events_to_trace(events, info["results"])
+    tr = info.get("tr")
+    info.update(delivered=tr.delivered if tr else 0, peer_total=peer.total_out, cn_seen=bool(peer.got_close_notify),
+                peer_done=bool(peer.handshaken and not peer.script), err=None)
+    return dict(labels=labels, out=[obs, results], info=info)
+
+
+def _concurrent_close_cases(thorough):
+    import c08
+    state = c08.current_flag()
+    for ver in (13, 12):
+        for client in (1, 0):
+            for std in (1, 0):
+                for after in (0, 1, 8):
+                    for peer, cut_mode in (([20, 0], "none"), ([20, 0], "before-cn"), ([20], "none")):
+                        base = dict(kind=K_CONCURRENT_CLOSE, std=std, ver=ver, client=client, peer=peer, after=after,
+                                    reply_close=1, silent=1, cut=None)
+                        if cut_mode == "before-cn":
+                            # cut in the middle of the peer's close_notify record (the last record of its stream)
+                            full = run_concurrent_close(dict(base, after=99))
+                            base["cut"] = full["info"]["peer_total"] - 3
+                        r = run_concurrent_close(base)
+                        inp = sx.norm([K_CONCURRENT_CLOSE, std, r["labels"],
+                                       [b"cclose", state, ver, client, peer, after, -1 if base["cut"] is None else base["cut"]]])
+                        _MEMO[sx.to_text(inp)] = sx.norm(r["out"])
+                        yield dict(input=inp, nontrivial=True,
+                                   tags=["async", "recv-while-closing", f"tls1.{ver - 10}", "std" if std else "nonstd",
+                                         f"close-after-{after}", "cut-" + cut_mode, "real-openssl"])
+
+
 # ------------------------------------------------------------------ cases
 
 def _cfg_sx(cfg):
@@ -1191,6 +1338,11 @@ def _build(cfg):
     return inp, out, r["info"]
 
 
+def _cclose_cfg(std, tail):
+    return dict(kind=K_CONCURRENT_CLOSE, std=std, ver=tail[2], client=tail[3], peer=list(tail[4]), after=tail[5],
+                cut=None if tail[6] < 0 else tail[6], reply_close=1, silent=1)
+
+
 def run_impl(inp):
     key = sx.to_text(sx.norm(inp))
     if key in _MEMO:
@@ -1198,6 +1350,18 @@ def run_impl(inp):
     kind, std = inp[0], inp[1]
     if kind == K_DEFAULT_FLAG:
         return run_default_flag(inp[1])
+    if kind == K_ASYNC and len(inp) >= 6 and isinstance(inp[5], int):
+        if bool(inp[5]) != _unread_close_ok():
+            return [777]                 # witness recorded for the other state of the fix
+        cfg = _sx_cfg(kind, std, inp[4])
+        r = run_async(cfg)
+        return [r["obs"], 0]
+    if kind == K_CONCURRENT_CLOSE:
+        import c08
+        tail = inp[-1]
+        if tail[1] != c08.current_flag():
+            return [777]
+        return run_concurrent_close(_cclose_cfg(std, tail))["out"]
     if kind == K_DEFAULT_CLIENT:
         tail = inp[-1]
         return run_default_client(dict(std=std, ver=tail[1], cut=tail[2]))["obs"]
@@ -1381,6 +1545,15 @@ def _fake_sync(thorough, rng):
                                      "std" if std else "nonstd", f"prefix{len(pre)}"])
 
 
+def _unread_close_ok():
+    """Does the tree under test send the close_notify even when unwrap() fails (unread application data)?"""
+    import c08
+    try:
+        return "f_close_flush := true" in c08.params_text()
+    except runner.TranslateError:
+        return False
+
+
 def _close_cases(rng):
     """Closing an open transport: close-notify first, with a peer that answers, stays silent, or just ends."""
     for ver in (13, 12):
@@ -1388,13 +1561,17 @@ def _close_cases(rng):
             for std in (1, 0):
                 for reply, silent in ((1, 0), (0, 0), (0, 1)):
                     for pre in ([], [(OP_SEND, [10])], [(OP_SEND, [3, 4])]):
-                        cfg = dict(kind=K_ASYNC, std=std, ver=ver, client=client, cut=None, ign=0, peer=[20],
-                                   plan=[(OP_RECV, RECV_SIZE, 1)] + pre + [(OP_CLOSE, 0, 0), (OP_CLOSE, 0, 0)],
-                                   reply_close=reply, silent=silent)
-                        inp, _out, _info = _build(cfg)
-                        yield dict(input=inp, nontrivial=True,
-                                   tags=["async", "close-open-transport", "std" if std else "nonstd", "real-openssl",
-                                         "peer-replies" if reply else ("peer-silent-timeout" if silent else "peer-ends")])
+                        for first in (RECV_SIZE, 5):       # 5: part of the peer's record stays unread when we close
+                            cfg = dict(kind=K_ASYNC, std=std, ver=ver, client=client, cut=None, ign=0, peer=[20],
+                                       plan=[(OP_RECV, first, 1)] + pre + [(OP_CLOSE, 0, 0), (OP_CLOSE, 0, 0)],
+                                       reply_close=reply, silent=silent)
+                            if first == 5 and not _unread_close_ok():
+                                continue        # known finding on a tree without the fix: witness lives in corpus/C09
+                            inp, _out, _info = _build(cfg)
+                            yield dict(input=inp, nontrivial=True,
+                                       tags=["async", "close-open-transport", "std" if std else "nonstd", "real-openssl",
+                                             "unread-data-at-close" if first == 5 else "all-read",
+                                             "peer-replies" if reply else ("peer-silent-timeout" if silent else "peer-ends")])
                 for pre in ([], [(OP_SEND, [10])]):
                     cfg = dict(kind=K_SYNC, std=std, ver=ver, client=client, cut=None, ign=0, peer=[20],
                                plan=[(OP_RECV, RECV_SIZE, 1)] + pre + [(OP_CLOSE, 0, 0), (OP_CLOSE, 0, 0)])
@@ -1406,6 +1583,7 @@ def _close_cases(rng):
 def cases(tier, rng, escalate):
     thorough = tier == "thorough" or escalate
     yield from _default_client_cases(thorough)
+    yield from _concurrent_close_cases(thorough)
     yield from _close_cases(rng)
     yield from _fake_async(thorough, rng)
     yield from _fake_sync(thorough, rng)
@@ -1417,10 +1595,30 @@ def cases(tier, rng, escalate):
 
 def oracle(inp):
     kind, std = inp[0], inp[1]
+    if kind == K_ASYNC and len(inp) >= 6 and isinstance(inp[5], int):
+        if bool(inp[5]) != _unread_close_ok():
+            return None
+        inp = list(inp[:5])
     if kind == K_DEFAULT_FLAG:
         if run_default_flag(inp[1])[0]:
             return ("default client context: OP_IGNORE_UNEXPECTED_EOF is still set after the %s client's constructor "
                     "(ssl=True), so OpenSSL hides truncations" % ("asynchronous" if inp[1] else "blocking"))
+        return None
+    if kind == K_CONCURRENT_CLOSE:
+        cfg = _cclose_cfg(std, inp[-1])
+        r = run_concurrent_close(cfg)
+        info = r["info"]
+        trunc = _truncated(info, cfg)
+        eofs = [x for x in info["recvs"] if x == [0, 0]]
+        if info["deadlock"]:
+            return "recv() + aclose(): the event loop would block forever"
+        if std and trunc and eofs and 0 in cfg["peer"]:
+            return (f"standard-compatible: stream cut at {cfg['cut']} before the end of the peer's close-notify reported as clean "
+                    "end-of-stream to a reader draining while aclose() is in progress")
+        unwrap_failed = info["closer_op"] is not None and info["results"].get(info["closer_op"], [0])[0] == 1
+        if std and info["close"] == [0, 0] and not info["cn_seen"] and (_unread_close_ok() or not unwrap_failed):
+            return ("standard-compatible aclose() while a recv() is pending in another task did not deliver a close-notify "
+                    "to the peer")
         return None
     if kind in (K_DEFAULT_CLIENT, K_DEFAULT_CLIENT_ASYNC):
         tail = inp[-1]
@@ -1435,7 +1633,7 @@ def oracle(inp):
         if not trunc and not eof:
             return "default client (ssl=True): complete stream with close-notify did not end cleanly"
         return None
-    cfg = _sx_cfg(kind, std, inp[-1])
+    cfg = _sx_cfg(kind, std, inp[4] if (kind == K_ASYNC and len(inp) >= 6 and isinstance(inp[5], int)) else inp[-1])
     r = run_async(cfg) if kind == K_ASYNC else run_sync(cfg)
     info, obs = r["info"], r["obs"]
     results = [o for o in obs if o[0] == 1]
@@ -1493,6 +1691,22 @@ def _final_read_outcomes(answers, kind):
 
 
 def signature(inp, failure):
+    if failure.startswith("standard-compatible close of an open transport did not deliver a close-notify") and _has_unread_close(inp):
+        return "aclose-with-unread-data-drops-close-notify"
+    return _signature(inp, failure)
+
+
+def _has_unread_close(inp):
+    try:
+        tagged = len(inp) >= 6 and isinstance(inp[5], int)
+        cfg = _sx_cfg(inp[0], inp[1], inp[4] if tagged else inp[-1])
+        return (inp[0] == K_ASYNC and cfg.get("fake") is None and cfg["plan"][0][0] == OP_RECV
+                and cfg["plan"][0][1] < sum(n for n in cfg["peer"] if n))
+    except Exception:
+        return False
+
+
+def _signature(inp, failure):
     return failure.split(":")[0] + ":" + failure.split(":")[1][:40] if ":" in failure else failure
 
 
